@@ -16,7 +16,8 @@ the distance to one of them; the arc API is a delegation chain: length = r*|angl
 point_at_fraction(l/length()), point_at_fraction(f) = point_at_angle(angle*f), point_at_angle(a) = circle.point_at_angle(angle0+a);
 (ALGEBRA) Arc2::three_points sweeps counter-clockwise exactly when the branch quantity is a positive multiple of (p1-p0)x(p2-p0) as a
 polynomial in the six coordinates; (GUARD) intersection_line_circle returns the foot of the centre under a two-sided |d-r| < tol that
-takes precedence, nothing only when also d > r, else foot -+ sqrt(r^2-d^2)/|dir|."""
+takes precedence, nothing only when also d > r, else foot -+ sqrt(r^2-d^2)/|dir|; circle x segment keeps a parameter exactly under the closed
+range [0,1] widened by a constant; (ENC) no function stores to the defining fields of a Circle2 / Arc2, directly or through a containing value."""
 NOT_DECIDED = "that intersection points lie on both objects (vector identities with unit vectors), that directed_angle measures the stated direction (C18), center/ball/circle/angle fields are public, so a caller can desynchronise the cached box by assignment (the property is read as being about the constructions)"
 ASSUMPTIONS = ["real arithmetic for the algebraic identity; f64::powi(x,2) = x*x"]
 
@@ -281,6 +282,8 @@ def run(cx):
         okc = False
         if ok:
             cs = comps[0]['conds']
+            if any(a[0] == 'call' and str(a[1]).endswith('::contains') for a, _ in cs):
+                cs = [(a, p_) for a, p_ in cs if a[0] not in ('le', 'lt')]        # the two comparisons `contains` is made of (inlined by the compiler in a loop body)
             e = match(f'(call RangeInclusive::contains (call RangeInclusive::new $lo $hi) {T})', cs[0][0]) if len(cs) == 1 and cs[0][1] else None
             okc = e is not None and e['lo'][0] == 'const' and e['hi'][0] == 'const' and -1e-6 <= e['lo'][1] <= 0.0 and 1.0 <= e['hi'][1] <= 1.0 + 1e-6
         cx.ob('GUARD', 'Circle2::intersection(Segment2)', ok and okc,
